@@ -4,15 +4,31 @@ import (
 	"fmt"
 
 	vrt "verif/rt"
+	"verif/shim/vnet"
 )
 
-func regSpec(sp *Spec) { reg(sp.scn()) }
+// regSpec registers a Spec scenario. Deviation bounds are normalised: quick 2, thorough 3, unless the scenario
+// asks for 0 (single default schedule) or -1 (all schedules).
+func regSpec(sp *Spec) {
+	if sp.Quick > 0 && sp.Quick < 3 {
+		sp.Quick = 2
+	}
+	if sp.Thor > 0 {
+		sp.Thor = 3
+	}
+	reg(sp.scn())
+}
 
 func registerAll() {
+	defer func() {
+		for _, f := range moreScenarios {
+			f()
+		}
+	}()
 	// ---------------------------------------------------------------- pipelines, concurrent writers (C05, C06, C08, C09)
 	// two requests in one segment, both handlers wait until both have started, then write concurrently
 	regSpec(&Spec{
-		Name: "pipe2-concurrent-writers", Props: []string{"C05", "C06", "C08", "C09", "C12", "C07"},
+		Name: "pipe2-concurrent-writers", Props: []string{"C05", "C06", "C08", "C09", "C12", "C07", "C03"},
 		Conns: []ConnSpec{{
 			Ops:    []string{"bind", "search"},
 			H:      map[int]*HSpec{1: {WaitStarted: 2}, 2: {WaitStarted: 2, Frames: []int{10, 5000}}},
@@ -31,7 +47,7 @@ func registerAll() {
 		Quick: 1, Thor: 2,
 	})
 	regSpec(&Spec{
-		Name: "pipe3-mixed-ops", Props: []string{"C05", "C06", "C09"},
+		Name: "pipe3-mixed-ops", Props: []string{"C05", "C06", "C09", "C03"},
 		Conns: []ConnSpec{{
 			Ops:    []string{"modify", "add", "delete"},
 			H:      map[int]*HSpec{1: {WaitStarted: 3}, 2: {WaitStarted: 3}, 3: {WaitStarted: 3}},
@@ -65,7 +81,7 @@ func registerAll() {
 	})
 	// long pipeline, all handlers blocked until the last one has started (one schedule + single preemptions)
 	{
-		n := 300
+		n := 140
 		ops := make([]string, n)
 		h := map[int]*HSpec{}
 		for i := range ops {
@@ -73,7 +89,7 @@ func registerAll() {
 			h[i+1] = &HSpec{WaitStarted: n}
 		}
 		regSpec(&Spec{
-			Name: "pipe300-all-blocked", Props: []string{"C06"},
+			Name: "pipe140-all-blocked", Props: []string{"C06"},
 			Conns: []ConnSpec{{Ops: ops, H: h, Expect: n}},
 			Quick: 0, Thor: 0, MaxPts: 2000000,
 		})
@@ -85,14 +101,14 @@ func registerAll() {
 		Conns: []ConnSpec{
 			{Ops: []string{"bind", "search"}, Expect: 2},
 			{Ops: []string{"bind"}, Expect: 1},
-			{Ops: []string{"bind"}, Expect: 1, WaitNote: "c1-done"},
+			{Ops: []string{"bind"}, Expect: 1, After: 1},
 		},
 		Quick: 1, Thor: 2,
 	})
 	regSpec(&Spec{
 		Name: "accept-burst", Props: []string{"C09"},
 		Conns: []ConnSpec{
-			{Ops: []string{"bind"}, Expect: 1}, {Ops: []string{"bind"}, Expect: 1}, {Ops: []string{"bind"}, Expect: 1},
+			{Ops: []string{"bind"}, Expect: 1}, {Ops: []string{"bind"}, Expect: 1},
 		},
 		Quick: 1, Thor: 2,
 	})
@@ -200,8 +216,8 @@ func registerAll() {
 				Name: "panic-" + f.name + "-" + when, Props: []string{"C07", "C08", "C11"},
 				Conns: []ConnSpec{
 					faulty,
-					{Ops: []string{"bind", "search"}, Segs: []int{1, 1}, Expect: 2, Name: "bystander", EndNote: "faulty-done"},
-					{Ops: []string{"bind"}, Expect: 1, Name: "fresh", After: 2},
+					{Ops: []string{"search"}, Expect: 1, Name: "bystander", EndNote: "faulty-done"},
+					{Ops: []string{"bind", "search"}, Segs: []int{1, 1}, Expect: 2, Name: "fresh", After: 2},
 				},
 				Check: bystandersServed,
 				Quick: 1, Thor: 2,
@@ -216,14 +232,19 @@ func registerAll() {
 		{"truncated-frame", ConnSpec{Ops: []string{"bind"}, Expect: 1, End: "half", Name: "faulty"}},
 		{"malformed-frame", ConnSpec{Ops: []string{"bind", "garbage"}, Read: "all", Name: "faulty"}},
 		{"stops-reading", ConnSpec{Ops: []string{"search"}, H: map[int]*HSpec{1: {Frames: []int{70000}}}, Read: "none", End: "reset", RecvBuf: 1024, Name: "faulty"}},
+		{"stops-reading-and-holds", ConnSpec{Ops: []string{"search"}, H: map[int]*HSpec{1: {Frames: []int{70000}}}, Read: "none", End: "stay", EndNote: "fresh-done", RecvBuf: 1024, Name: "faulty"}},
 		{"write-after-close", ConnSpec{Ops: []string{"search"}, H: map[int]*HSpec{1: {WaitNote: "faulty-done", Frames: []int{10}}}, Read: "none", Name: "faulty"}},
 	} {
+		bystanderWaits := "faulty-done"
+		if f.c.EndNote == "fresh-done" {
+			bystanderWaits = "" // the faulty client holds its connection until the others are done
+		}
 		regSpec(&Spec{
 			Name: "fault-" + f.name, Props: []string{"C07", "C08"},
 			Conns: []ConnSpec{
 				f.c,
-				{Ops: []string{"bind", "search"}, Segs: []int{1, 1}, Expect: 2, Name: "bystander", EndNote: "faulty-done"},
-				{Ops: []string{"bind"}, Expect: 1, Name: "fresh", After: 2},
+				{Ops: []string{"search"}, Expect: 1, Name: "bystander", EndNote: bystanderWaits},
+				{Ops: []string{"bind", "search"}, Segs: []int{1, 1}, Expect: 2, Name: "fresh", After: 2},
 			},
 			Check: bystandersServed,
 			Quick: 1, Thor: 2,
@@ -238,6 +259,24 @@ func registerAll() {
 		Name: "stop-races-accept", Props: []string{"C12", "C11", "C08", "C09"},
 		Conns:    []ConnSpec{{Ops: []string{"bind"}, Read: "all"}},
 		StopWhen: "now", Quick: 2, Thor: 3,
+	})
+	// Stop starts the moment the accept loop has a new connection in its hands
+	watchAccepted := func(w *World) {
+		vrt.GoNamed("watch", func() {
+			vrt.WaitUntil("accepted", func() bool { return vnet.Accepted() > 0 })
+			w.Notes["accepted"]++
+		})
+	}
+	regSpec(&Spec{
+		Name: "stop-right-after-accept", Props: []string{"C12", "C11", "C08", "C09"},
+		Conns:    []ConnSpec{{Ops: []string{"bind"}, Read: "all"}},
+		StopWhen: "note:accepted", Extra: watchAccepted, Quick: 3, Thor: -1,
+	})
+	regSpec(&Spec{
+		Name: "stop-right-after-accept-slow-onclose", Props: []string{"C12", "C08"},
+		Srv:      SrvOpts{OnCloseYields: 1},
+		Conns:    []ConnSpec{{Ops: []string{"search"}, H: map[int]*HSpec{1: {Yields: 1}}, Read: "all"}},
+		StopWhen: "note:accepted", Extra: watchAccepted, Quick: 2, Thor: 3,
 	})
 	regSpec(&Spec{
 		Name: "stop-races-accept-second-stop", Props: []string{"C12", "C11"},
@@ -307,7 +346,7 @@ func bystandersServed(x *vrt.Sched, w *World) []Finding {
 			continue
 		}
 		want := 1
-		if c.Name == "bystander" {
+		if c.Name == "fresh" {
 			want = 2
 		}
 		if len(c.Frames) != want {
